@@ -556,6 +556,12 @@ func instrumentFile(label string, p *packages.Package, f *ast.File, fc *fileCtx)
 						keyExpr = "&" + el
 					}
 				}
+				if kind == 0 {
+					// a read of X[i] / X.f reads that element or field
+					if comp := firstLevelComponent(info, stack, x, host, fc); comp != "" {
+						keyExpr = "__simrt.Addr(func() any { return &" + comp + " })"
+					}
+				}
 				if !skip {
 					fc.insert(at, fmt.Sprintf("__simrt.AccessL(%d, %d, %d, %s); ", sid, id, hk, keyExpr), 1)
 				}
